@@ -1,5 +1,89 @@
 import QipVerif.Util.Proto
-/-! Driver stub (to be filled in by the owner of this model). -/
-open QipVerif.Proto
-def step (_line : String) : String := "bad-op"
+import QipVerif.Model.Render
+/-! Driver for the text-renderer model (C20).
+
+Request (one line):
+
+`render n=N c=C padn=.. padd=.. ext=.. align=0|1 [labels=<lab>;<lab>;…;] ops=<op>/<op>/…`
+
+* a string is the list of its code points in decimal joined by `.` (empty string = nothing)
+* `labels=` : every label is *terminated* by `;` (`labels=` is the empty list, key absent = `None`)
+* `<op>` is `g:<name>:<arg_label>:<targets>:<controls>` with `<arg_label>` = `-` (None) or
+  `L<string>`, `<targets>` comma separated, `<controls>` = `-` (None) or `c<comma separated>`;
+  or `m:<targets>:<classical_store>`.
+
+Answer: `ok <row>|<row>|…` (rows in print order, each row a `.`-joined code point list)
+or `err index` / `err value`.  `widths …` answers `ok w1,w2,…` (row lengths only).
+-/
+open QipVerif QipVerif.Proto QipVerif.Render
+
+def parseStr (s : String) : Option Str :=
+  ((s.splitOn ".").filter (· ≠ "")).mapM fun t => t.toNat?.map Char.ofNat
+
+def parseNats (s : String) : Option (List Nat) :=
+  ((s.splitOn ",").filter (· ≠ "")).mapM String.toNat?
+
+def dropFirst (s : String) : String := String.ofList (s.toList.drop 1)
+
+def parseOp (s : String) : Option Op :=
+  match s.splitOn ":" with
+  | ["g", name, lab, ts, cs] => do
+    let name ← parseStr name
+    let lab ← if lab = "-" then pure none
+              else if lab.startsWith "L" then (parseStr (dropFirst lab)).map some else none
+    let ts ← parseNats ts
+    let cs ← if cs = "-" then pure none
+             else if cs.startsWith "c" then (parseNats (dropFirst cs)).map some else none
+    pure (.gate name lab ts cs)
+  | ["m", ts, store] => do
+    let ts ← parseNats ts
+    let st ← store.toNat?
+    pure (.meas ts st)
+  | _ => none
+
+def parseOps (s : String) : Option (List Op) :=
+  ((s.splitOn "/").filter (· ≠ "")).mapM parseOp
+
+def parseLabels (s : String) : Option (List Str) :=
+  ((s.splitOn ";").dropLast).mapM parseStr
+
+def showStr (r : Str) : String := ".".intercalate (r.map fun c => toString c.toNat)
+
+def parseReq (fs : List String) : Option (Style × Circ) := do
+  let n ← fNat? fs "n"
+  let c ← fNat? fs "c"
+  let padn ← fNat? fs "padn"
+  let padd ← fNat? fs "padd"
+  if padd = 0 then none
+  let ext ← fInt? fs "ext"
+  let align ← fNat? fs "align"
+  let labels ← match field? fs "labels" with
+    | none => pure none
+    | some l => (parseLabels l).map some
+  let ops ← parseOps ((field? fs "ops").getD "")
+  pure ({ padNum := padn, padDen := padd, ext := ext, align := align != 0, labels := labels },
+        { N := n, C := c, ops := ops })
+
+def errName : Err → String
+  | .index => "index" | .value => "value"
+
+def step (line : String) : String :=
+  let fs := fields line
+  match fs.head? with
+  | some "render" =>
+    match parseReq fs with
+    | none => "bad-op"
+    | some (sty, c) =>
+      match render sty c with
+      | .ok rows => "ok " ++ "|".intercalate (rows.map showStr)
+      | .error e => "err " ++ errName e
+  | some "widths" =>
+    match parseReq fs with
+    | none => "bad-op"
+    | some (sty, c) =>
+      match render sty c with
+      | .ok rows => "ok " ++ showNats (rows.map List.length)
+      | .error e => "err " ++ errName e
+  | _ => "bad-op"
+
 def main : IO Unit := serve step
